@@ -126,6 +126,10 @@ func (ex *Exec) draw(label, kind string, w uint8, lo, hi uint64) *Term {
 
 var vrtIntrinsics map[string]intrinsicFn
 
+func iteIntrinsic(ex *Exec, fn *ssa.Function, args []Value, caller *Frame) Value {
+	return ex.ts.Ite(args[1].(*Term), args[2].(*Term), args[3].(*Term))
+}
+
 func init() {
 	vrtIntrinsics = map[string]intrinsicFn{
 		"Param": func(ex *Exec, fn *ssa.Function, args []Value, caller *Frame) Value {
@@ -303,6 +307,9 @@ func init() {
 		"Implies": func(ex *Exec, fn *ssa.Function, args []Value, caller *Frame) Value {
 			return ex.ts.Or(ex.ts.BNot(args[1].(*Term)), args[2].(*Term))
 		},
+		"IteU8":  iteIntrinsic,
+		"IteU32": iteIntrinsic,
+		"IteInt": iteIntrinsic,
 		"TrackFootprint": func(ex *Exec, fn *ssa.Function, args []Value, caller *Frame) Value {
 			ex.trackFoot = args[1].(*Term).IsTrue()
 			return nil
